@@ -175,6 +175,20 @@ class AutoSerialize:
         return val
 
     @staticmethod
+    def _load_numpy_rng(subgrp: zarr.Group) -> np.random.Generator:
+        """Recreate a NumPy random generator (with fresh state) from its saved metadata."""
+        import numpy.random as npr
+
+        bit_generators = {
+            "PCG64": npr.PCG64,
+            "MT19937": npr.MT19937,
+            "Philox": npr.Philox,
+            "SFC64": npr.SFC64,
+        }
+        bit_generator_type = subgrp.attrs.get("_bit_generator_type", "PCG64")
+        return npr.Generator(bit_generators.get(cast(str, bit_generator_type), npr.PCG64)())
+
+    @staticmethod
     def _is_autoserialize_instance(value: Any) -> bool:
         """Return True if value behaves like an AutoSerialize instance, even across autoreloads."""
         if isinstance(value, AutoSerialize):
@@ -961,6 +975,8 @@ class AutoSerialize:
                             else:
                                 # Skip unknown logger types in containers
                                 continue
+                        elif subgroup.attrs.get("_numpy_rng"):
+                            items.append(AutoSerialize._load_numpy_rng(subgroup))
                         else:
                             raise ValueError(
                                 f"Unknown group structure at key '{key}' in {group.path}"
@@ -1080,6 +1096,8 @@ class AutoSerialize:
                         else:
                             # Skip unknown logger types in containers
                             continue
+                    elif subgroup.attrs.get("_numpy_rng"):
+                        items.append(AutoSerialize._load_numpy_rng(subgroup))
                     else:
                         raise ValueError(f"Unknown group structure at key '{key}' in {group.path}")
                 else:
@@ -1170,6 +1188,8 @@ class AutoSerialize:
                     else:
                         # Skip unknown logger types in containers
                         continue
+                elif subgroup.attrs.get("_numpy_rng"):
+                    result[key] = AutoSerialize._load_numpy_rng(subgroup)
                 else:
                     raise ValueError(f"Unknown group structure at key '{key}' in {group.path}")
 
